@@ -7,7 +7,7 @@ use std::hash::{Hash, Hasher};
 use circom_algebra::modular_arithmetic;
 
 use super::declarations::Declarations;
-use super::degree_meta::{Degree, DegreeEnvironment, DegreeMeta, DegreeRange};
+use super::degree_meta::{Degree, DegreeEnvironment, DegreeMeta, DegreeRange, MergeControl};
 use super::ir::*;
 use super::type_meta::TypeMeta;
 use super::value_meta::{ValueEnvironment, ValueMeta, ValueReduction};
@@ -291,10 +291,21 @@ impl DegreeMeta for Expression {
                 result
             }
             Phi { meta, args } => {
-                // The degree range of a phi expression is the infimum of the ranges of all the arguments.
+                // The degree range of a phi expression is the infimum of the ranges of all the arguments,
+                // provided the same argument is taken for all inputs. Which argument is taken is decided
+                // by a branch condition: if that condition may depend on the inputs, so may the value.
                 let range = DegreeRange::iter_opt(args.iter().map(|arg| env.degree(arg)));
                 if let Some(range) = range {
-                    result = result || meta.degree_knowledge_mut().set_degree(&range);
+                    match env.merge_control() {
+                        MergeControl::Constant => {
+                            result = result || meta.degree_knowledge_mut().set_degree(&range);
+                        }
+                        MergeControl::NonConstant => {
+                            let range = DegreeRange::new(range.start(), NonQuadratic);
+                            result = result || meta.degree_knowledge_mut().set_degree(&range);
+                        }
+                        MergeControl::Unknown => {}
+                    }
                 }
                 result
             }
